@@ -3,6 +3,7 @@ module github.com/tdakkota/docker-logql/verifharness
 go 1.22.0
 
 require (
+	github.com/docker/docker v27.1.2+incompatible
 	github.com/tdakkota/docker-logql v0.0.0
 	go.opentelemetry.io/collector/pdata v1.13.0
 )
@@ -14,7 +15,6 @@ require (
 	github.com/cespare/xxhash/v2 v2.3.0 // indirect
 	github.com/distribution/reference v0.5.0 // indirect
 	github.com/dlclark/regexp2 v1.11.4 // indirect
-	github.com/docker/docker v27.1.2+incompatible // indirect
 	github.com/docker/go-connections v0.5.0 // indirect
 	github.com/docker/go-units v0.5.0 // indirect
 	github.com/dustin/go-humanize v1.0.1 // indirect
